@@ -68,8 +68,8 @@ def setup_worker():
 
 def plan(tier):
     if tier == "quick":
-        return [("simfs", {}, 360, 10), ("realkill", {"real": 1}, 48, 3), ("handles", {"handles": 2}, 160, 10)]
-    return [("simfs", {}, 40000, 50), ("realkill", {"real": 1}, 1600, 10), ("handles", {"handles": 2}, 20000, 50)]
+        return [("simfs", {}, 360, 10), ("realkill", {"real": 1}, 48, 3), ("handles", {"handles": 2}, 160, 10), ("siblings", {"siblings": 1}, 160, 10)]
+    return [("simfs", {}, 40000, 50), ("realkill", {"real": 1}, 1600, 10), ("handles", {"handles": 2}, 20000, 50), ("siblings", {"siblings": 1}, 20000, 50)]
 
 
 # keys are file names: "k1.tmp" / "k1~" style siblings are ordinary, distinct keys
@@ -147,13 +147,24 @@ def _run_simfs(ch, cfg, hist, nextra):
     hist2 = []
     # one or two live handles (store objects) on the same directory
     nh = 2 if cfg.get("handles") else 1 + (ch.draw(3, "handles") == 0)
-    if ch.draw(3, "writer2") == 0:
+    sib = bool(cfg.get("siblings"))
+    if sib:
+        # "siblings" configuration: two writers on one store object whose keys live in the same directory (which need not
+        # exist yet), and one injected I/O error - whatever a failing set does about what it has created so far, the other
+        # writer's completed set survives it
+        nh = 1
+        if not any("/" in k for k, _ in hist[nextra:]):
+            hist = list(hist)
+            hist[nextra] = (ch.pick(["dir/k3", "dir/sub/k4", "other/k5"], "sibdir"), hist[nextra][1])
+    if sib or ch.draw(3, "writer2") == 0:
         for _ in range(1 + ch.draw(2, "n2")):
             # through ONE store object the sets of a key are coordinated by its cache, so the second writer may use
             # the first writer's keys; two store objects do not coordinate (nothing promises that), so there the
             # second writer keeps to keys of its own
             k2 = hist[nextra + ch.draw(n1 - nextra, "k2")][0] if nh == 1 else ch.pick(["w2/a", "w2b"], "k2own")
-            if nh == 1 and "/" in k2 and ch.draw(2, "k2sibling") == 0:
+            if sib:
+                k2 = [k for k, _ in hist[nextra:] if "/" in k][0]
+            if nh == 1 and "/" in k2 and (sib or ch.draw(2, "k2sibling") == 0):
                 # ... or a key of its own in the same (possibly not yet existing) directory as a key of the first writer
                 k2 = k2.rsplit("/", 1)[0] + "/w2sib"
             hist2.append((k2, gen_literal(ch, allow_undef=False, tag="v2")))
@@ -175,8 +186,8 @@ def _run_simfs(ch, cfg, hist, nextra):
                for i in range(nextra, len(hist)) if ch.draw(3, "preget") == 0 or (cfg.get("handles") and ch.draw(2, "preget2"))}
     # at most one injected I/O error: the k-th fsync / write / create of the (non-prepended) history fails
     iofault = None
-    if ch.draw(5, "iofault") == 0:
-        iofault = {"kind": ch.pick(["fsync", "fsync", "write", "creat"], "iokind"), "at": ch.draw(3, "ioat"), "seen": 0, "armed": False, "fired": False}
+    if sib or ch.draw(5, "iofault") == 0:
+        iofault = {"kind": ch.pick(["creat", "creat", "fsync", "write"] if sib else ["fsync", "fsync", "write", "creat"], "iokind"), "at": ch.draw(3, "ioat"), "seen": 0, "armed": False, "fired": False}
 
         def hook(kind, path):
             if iofault["armed"] and not iofault["fired"] and kind == iofault["kind"]:
